@@ -131,8 +131,10 @@ def cases(rng, tier):
             payload["mode"] = "map_out_of_range"
         elif mode < 0.84:
             payload["mode"] = "map_len"
-        elif mode < 0.88 and ids:
+        elif mode < 0.86 and ids:
             payload["mode"] = "drop_decomp"
+        elif mode < 0.88 and ids:
+            payload["mode"] = "dup_decomp"
         elif mode < 0.92:
             payload["mode"] = "non_qpd_index"
         elif mode < 0.95:
@@ -179,6 +181,11 @@ def _materialise(payload):
         map_ids = map_ids + [0] if rng.random() < 0.5 or not map_ids else map_ids[:-1]
     elif mode == "drop_decomp" and ids:
         ids.pop(rng.randrange(len(ids)))
+        map_ids = [rng.randrange(len(bases[instrs[d[0]]["basis"]].maps)) for d in ids]
+    elif mode == "dup_decomp" and ids:
+        # every placeholder is listed, one decomposition twice (possibly with another map id): more entries than placeholders
+        k = rng.randrange(len(ids))
+        ids.insert(rng.randint(0, len(ids)), list(ids[k]))
         map_ids = [rng.randrange(len(bases[instrs[d[0]]["basis"]].maps)) for d in ids]
     elif mode == "non_qpd_index":
         plain = [i for i, x in enumerate(instrs) if not x["name"].startswith("qpd")]
